@@ -4,6 +4,7 @@
 package adapters
 
 import (
+	"fmt"
 	"strings"
 
 	"github.com/go-i2p/common/certificate"
@@ -171,6 +172,12 @@ func ls2Shape(r *engine.RNG, kind string) *engine.Shape {
 		sh.N = r.PickInt(0, 1, 1, 2, 3, 5, 16)
 		sh.Size = r.PickInt(1, 1, 2, 3, 16)
 		sh.Opts, sh.Unsorted = Options(r, 6)
+		if r.Chance(1, 8) {
+			// encryption keys with unusual type / length fields (0, 1, 255, 256, 65535 bytes)
+			for i := 0; i < sh.Size && i < 3; i++ {
+				sh.Sub = append(sh.Sub, engine.Shape{Kind: "key", U: []uint64{uint64(r.PickInt(4, 0, 1, 5, 255, 65535))}, Size: r.PickInt(0, 1, 31, 32, 33, 255, 256, 65535)})
+			}
+		}
 	} else {
 		sh.N = r.PickInt(1, 1, 2, 3, 16)
 		if r.Chance(1, 5) {
@@ -300,10 +307,17 @@ var All = []*Adapter{
 		if r.Chance(1, 10) {
 			sh.U[1] = uint64(r.Intn(256))
 		}
-		for i, n := 0, r.PickInt(0, 1, 1, 2, 4); i < n; i++ {
+		na := r.PickInt(0, 1, 1, 2, 4)
+		if r.Chance(1, 20) {
+			na = r.PickInt(254, 255)
+		}
+		for i := 0; i < na; i++ {
 			sh.Sub = append(sh.Sub, *raddrShape(r))
 		}
 		sh.Opts, sh.Unsorted = Options(r, 8)
+		if r.Chance(1, 25) {
+			sh.Opts = ManyOptions(r)
+		}
 		return sh
 	}, Arg: noArg, Parse: func(b []byte, _ int) Result {
 		ri, rem, err := router_info.ReadRouterInfo(b)
@@ -420,7 +434,34 @@ func seedShape(kind string) func(r *engine.RNG) *engine.Shape {
 func mappingShape(r *engine.RNG) *engine.Shape {
 	sh := &engine.Shape{Kind: "mapping"}
 	sh.Opts, sh.Unsorted = Options(r, 8)
+	if r.Chance(1, 15) {
+		sh.Opts = ManyOptions(r)
+	}
 	return sh
+}
+
+// ManyOptions draws a mapping near one of its limits: the parser's pair limit
+// (1000) or the 16-bit size field.
+func ManyOptions(r *engine.RNG) [][2]string {
+	var out [][2]string
+	switch r.Intn(3) {
+	case 0: // around the pair limit, shortest non-empty pairs
+		n := r.PickInt(998, 999, 1000, 1001)
+		for i := 0; i < n; i++ {
+			out = append(out, [2]string{fmt.Sprintf("k%04d", i), "v"})
+		}
+	case 1: // size field close to 65535 with 255-byte strings
+		n := r.PickInt(126, 127, 128)
+		for i := 0; i < n; i++ {
+			out = append(out, [2]string{fmt.Sprintf("%03d", i) + strings.Repeat("K", 252), strings.Repeat("V", r.PickInt(254, 255))})
+		}
+	default:
+		n := r.PickInt(255, 256, 257)
+		for i := 0; i < n; i++ {
+			out = append(out, [2]string{fmt.Sprintf("o%03d", i), fmt.Sprintf("%d", i)})
+		}
+	}
+	return out
 }
 
 func leaseShape(kind string) func(r *engine.RNG) *engine.Shape {
